@@ -97,7 +97,8 @@ Denote ==
 NONE == << "NONE" >>
 Resolve(key) == IF key \in scfg.leaves THEN key ELSE NONE
 
-IsModelArg(key) == Len(key) = 5 /\ key[1] = "pipeline" /\ key[4] = "arguments"
+\* (an entry of a dictionary-valued argument is addressed with one more component)
+IsModelArg(key) == Len(key) >= 5 /\ key[1] = "pipeline" /\ key[4] = "arguments"
 ModelOf(key) == << key[1], key[2], key[3] >>
 
 \* Outcome required of assigning through `key` from entry point `path`:
@@ -137,6 +138,17 @@ Assign(path, key, v) ==
                                      changed |-> { k \in DOMAIN tree : Produced(path, key, v)[k] # tree[k] }])
   /\ UNCHANGED scfg
 
+\* A constructor call / document that gives a SECOND setting together with the one under test: the limits
+\* of a quantity do not depend on what its neighbours are (absent = Unset, or any admissible value).
+Assign2(path, key, v, key2, v2) ==
+  /\ NewObject(path) \/ path = "construct"
+  /\ LET refused == Refused(path, key, v) \/ (v2 # Unset /\ Refused(path, key2, v2))
+         prod == [Produced(path, key, v) EXCEPT ![key2] = v2]
+     IN hist' = Append(hist, [op |-> "set2", path |-> path, key |-> key, val |-> v, key2 |-> key2,
+                              out |-> IF refused THEN "rejected" ELSE "ok",
+                              changed |-> IF refused THEN {} ELSE { k \in DOMAIN tree : prod[k] # tree[k] }])
+  /\ UNCHANGED << scfg, tree, ran >>
+
 \* C12: a document with no or several running modes, or no or several detectors, is refused
 LoadDocument(nmodes, ndets) ==
   /\ hist' = Append(hist, [op |-> "load", path |-> "yaml", key |-> << >>, val |-> Num(nmodes * 10 + ndets, 1),
@@ -149,14 +161,16 @@ SInitWith(c, t) == scfg = [leaves |-> c.leaves, disabled |-> c.disabled, tree0 |
 
 \* C08: assigning through a key changes that setting and nothing else
 C08_Frame ==
-  \A k \in 1 .. Len(hist) : ~ NewObject(hist[k].path) => hist[k].changed \subseteq {hist[k].key}
+  \A k \in 1 .. Len(hist) :
+    ~ NewObject(hist[k].path) =>
+       hist[k].changed \subseteq (IF hist[k].op = "set2" THEN {hist[k].key, hist[k].key2} ELSE {hist[k].key})
 \* C08: a key that does not resolve is rejected (no silent no-op, nothing created)
 C08_Rejected ==
-  \A k \in 1 .. Len(hist) : (hist[k].op = "set" /\ hist[k].key \notin scfg.leaves) => hist[k].out = "rejected"
+  \A k \in 1 .. Len(hist) : (hist[k].op \in {"set", "set2"} /\ hist[k].key \notin scfg.leaves) => hist[k].out = "rejected"
 \* C12: no path ever leaves a physical quantity outside its documented range
 C12_AllInRange == \A leaf \in DOMAIN tree : InRangeStored(leaf, tree[leaf])
 \* C12: every path applies the same policy
 C12_SamePolicy ==
   \A k \in 1 .. Len(hist) :
-    (hist[k].op = "set" /\ hist[k].key \in scfg.leaves /\ ~ InRange(hist[k].key, hist[k].val)) => hist[k].out = "rejected"
+    (hist[k].op \in {"set", "set2"} /\ hist[k].key \in scfg.leaves /\ ~ InRange(hist[k].key, hist[k].val)) => hist[k].out = "rejected"
 =============================================================================
